@@ -198,6 +198,19 @@ func (collection *linkCollectionImpl) IterateLinks(tx *bbolt.Tx, id []byte) ast.
 	return ast.EmptyCursor
 }
 
+// iterateLinksReadOnly iterates the links of an entity without creating the link bucket if it doesn't exist
+func (collection *linkCollectionImpl) iterateLinksReadOnly(tx *bbolt.Tx, id []byte) ast.SeekableSetCursor {
+	entityBucket := collection.field.GetStore().GetEntityBucket(tx, id)
+	if entityBucket == nil {
+		return ast.EmptyCursor
+	}
+	fieldBucket := entityBucket.GetPath(collection.field.GetPath()...)
+	if fieldBucket == nil {
+		return ast.EmptyCursor
+	}
+	return fieldBucket.IterateStringList()
+}
+
 func (collection *linkCollectionImpl) CheckIntegrity(ctx MutateContext, fix bool, errorSink func(err error, fixed bool)) error {
 	tx := ctx.Tx()
 	foundInverse := false
@@ -219,7 +232,7 @@ func (collection *linkCollectionImpl) CheckIntegrity(ctx MutateContext, fix bool
 
 	for idCursor := collection.field.GetStore().IterateValidIds(tx, ast.BoolNodeTrue); idCursor.IsValid(); idCursor.Next() {
 		id := idCursor.Current()
-		for linkCursor := collection.IterateLinks(tx, id); linkCursor.IsValid(); linkCursor.Next() {
+		for linkCursor := collection.iterateLinksReadOnly(tx, id); linkCursor.IsValid(); linkCursor.Next() {
 			linkId := linkCursor.Current()
 			linkValid := collection.otherField.GetStore().IsEntityPresent(tx, string(linkId))
 			if !linkValid {
